@@ -177,6 +177,17 @@ FAMILIES = {
         sharing=True,
         runs={"quick": [dict(mode="bfs", max_nodes=3)], "thorough": [dict(mode="bfs", max_nodes=4)]},
         shards=[["tmpl"]], shard_defs={"tmpl": "SK_tmpl"}),
+    "mapswitch": dict(
+        consts=dict(Raises="NoRaises", Kinds="FMS_Kinds", Paths="FMS_Paths", Consts="FMS_Consts", Tmpls="None0",
+                    Fns="None0", Bodies="None0", DispVals="FMS_Disp", Preds="None0", Presets="None0",
+                    MapPaths="FMS_MapPaths", Leaves="FMS_Leaves", PlainOpts="TRUE"),
+        sharing=True,
+        sim_roots="SK_map",
+        # exhaustively: every DAG of the shape val, opt, opt, switch, map (KindSeq); by simulation: any shape
+        bfs_consts=dict(KindSeq="FMS_Seq"),
+        runs={"quick": [dict(mode="bfs", max_nodes=5, min_nodes=5, split=4), dict(mode="sim", max_nodes=5, min_nodes=4, num=6000, depth=18, procs=6)],
+              "thorough": [dict(mode="bfs", max_nodes=5, min_nodes=5, split=4), dict(mode="sim", max_nodes=6, min_nodes=4, num=120000, depth=20, procs=12)]},
+        shards=[["map"]], shard_defs={"map": "SK_map"}),
     "illsorted": dict(
         consts=dict(Raises="NoRaises", Kinds="FI_Kinds", Paths="FI_Paths", Consts="FI_Consts", Tmpls="None0",
                     Fns="None0", Bodies="None0", DispVals="NoSeq", Preds="None0", Presets="None0",
@@ -262,7 +273,7 @@ def write_cfg(path, fam, tier, roots_def, invariants, emit, max_nodes, min_nodes
               nshards=1, shard=0):
     f = FAMILIES[fam]
     lines = ["SPECIFICATION MCSpec", "CONSTANTS"]
-    consts = dict(Cbs="NoCb", EffSets="NoEff", Caches="MemOnly", BothPresets="FALSE", CollKinds="AllColl")
+    consts = dict(Cbs="NoCb", EffSets="NoEff", Caches="MemOnly", BothPresets="FALSE", CollKinds="AllColl", PlainOpts="FALSE", KindSeq="NoSeq")
     consts.update(f["consts"])
     if not sim and "bfs_consts" in f:
         consts.update(f["bfs_consts"])
@@ -403,7 +414,7 @@ def run_family(prop, fam, tier, sc, rep):
         if run["mode"] == "bfs":
             mc_cfg = sc.path("cfg", "MC_%s_%d.cfg" % (fam, ri))
             write_cfg(mc_cfg, fam, tier, "SK_all", INVARIANTS, emit=False, max_nodes=run["max_nodes"],
-                      sharing=run.get("sharing"))
+                      min_nodes=run.get("min_nodes", 1), sharing=run.get("sharing"))
             mc = tlc.require_clean(tlc.run_tlc("MC_Expr", os.path.relpath(mc_cfg, os.path.join(SPEC, "cfg")),
                                                workers=NPROC, scratch=sc), "MC_Expr/%s/bfs%d" % (fam, run["max_nodes"]))
             states += mc.distinct
@@ -414,7 +425,7 @@ def run_family(prop, fam, tier, sc, rep):
                 for k in range(split):
                     gen_cfg = sc.path("cfg", "Gen_%s_%d_%d_%d.cfg" % (fam, ri, i, k))
                     write_cfg(gen_cfg, fam, tier, f["shard_defs"][roots[0]], [], emit=True, max_nodes=run["max_nodes"],
-                              sharing=run.get("sharing"), nshards=split, shard=k)
+                              min_nodes=run.get("min_nodes", 1), sharing=run.get("sharing"), nshards=split, shard=k)
                     fd = _Feeder(_tlc_cmd(sc, "gen-%s-%d-%d-%d" % (fam, ri, i, k), gen_cfg), dict(os.environ), pool,
                                  results, None)
                     fd.kind = "bfs"
@@ -423,7 +434,7 @@ def run_family(prop, fam, tier, sc, rep):
             procs = run.get("procs", 8)
             for i in range(procs):
                 sim_cfg = sc.path("cfg", "Sim_%s_%d.cfg" % (fam, ri))
-                write_cfg(sim_cfg, fam, tier, "SK_all", INVARIANTS, emit=True, max_nodes=run["max_nodes"],
+                write_cfg(sim_cfg, fam, tier, f.get("sim_roots", "SK_all"), INVARIANTS, emit=True, max_nodes=run["max_nodes"],
                           min_nodes=run["min_nodes"], sim=True, sharing=run.get("sharing"))
                 extra = ["-simulate", "num=%d" % max(1, run["num"] // procs), "-depth", str(run["depth"]),
                          "-seed", str(SEED * 1000 + ri * 100 + i + 1)]
